@@ -179,7 +179,18 @@ impl Prop for C15 {
                         let vis = |ls: &Vec<String>| -> Vec<char> { let mut v: Vec<char> = ls.iter().flat_map(|l| l.chars()).filter(|ch| !ch.is_whitespace() && *ch != '\u{336}' && !BOX.contains(ch)).collect(); v.sort(); v };
                         let mark_cell = a.iter().any(|l| l.split('│').any(|seg| seg.contains('\u{336}') && seg.chars().all(|ch| ch == '\u{336}' || ch == ' ')));
                         let loose = a.iter().any(|l| l.contains('│')) && mark_cell && a.len() >= b.len() && vis(&a) == vis(&b);
-                        if da != b && c.cfg.overflow && (da2 == b || celleq || loose) {
+                        // tables without borders (cells separated by blanks): the mark-only piece shows as a mark that does not
+                        // follow a visible character — a strikeout mark otherwise always does (added after the thorough tier met
+                        // the finding in a borderless table at width 1, which the bar-based readings above cannot parse)
+                        let mark_alone = a.iter().any(|l| {
+                            let cs: Vec<char> = l.chars().collect();
+                            cs.iter().enumerate().any(|(i, ch)| *ch == '\u{336}' && (i == 0 || cs[i - 1] == ' '))
+                        });
+                        // (block prefixes repeat on every line and `a` has more lines, so the characters prefixes are made of are
+                        // left out of the comparison of visible characters)
+                        let vis_np = |ls: &Vec<String>| -> Vec<char> { let mut v = vis(ls); v.retain(|ch| !matches!(ch, '>' | '*' | '#' | '.' | '-') && !ch.is_ascii_digit()); v };
+                        let loose_borderless = !a.iter().any(|l| l.contains('│')) && mark_alone && a.len() >= b.len() && vis_np(&a) == vis_np(&b);
+                        if da != b && c.cfg.overflow && (da2 == b || celleq || loose || loose_borderless) {
                             // overflow mode: the mark after an over-wide character is emitted on a line of its own
                             out.push(known("a strike mark is hard-wrapped onto its own line in overflow mode".to_string(), "C15-strike-overflow-line"));
                         } else if da != b {
